@@ -39,6 +39,10 @@ type FileWriter struct {
 	recordHeaderCache  []byte
 	bufferPool         *pool.Pool
 	alignedBlockWrites bool
+
+	// rejected is set when a record whose write was reported as failed could not be taken out of the file again.
+	// Close reports it: whoever closes this file to continue in the next one (a log rotation) must not go on
+	rejected error
 }
 
 var DirectIOSyncWriteErr = errors.New("currently not supporting directIO with sync writing")
@@ -259,9 +263,10 @@ func (w *FileWriter) WriteSync(record []byte) (uint64, error) {
 		err = fmt.Errorf("failed to sync file at '%s' failed with %w", w.file.Name(), err)
 		undoErr := w.truncateTo(prevOffset)
 		if undoErr != nil {
-			// the record can't be taken back: nothing may follow it
+			// the record can't be taken back: nothing may follow it, in this file or (see Close) in a next one
 			w.open = false
-			return 0, errors.Join(err, undoErr)
+			w.rejected = errors.Join(err, undoErr)
+			return 0, w.rejected
 		}
 		return 0, err
 	}
@@ -306,9 +311,9 @@ func (w *FileWriter) Close() error {
 
 	err = w.file.Close()
 	if err != nil {
-		return fmt.Errorf("failed to close file at '%s' failed with %w", w.file.Name(), err)
+		return errors.Join(fmt.Errorf("failed to close file at '%s' failed with %w", w.file.Name(), err), w.rejected)
 	}
-	return nil
+	return w.rejected
 }
 
 func (w *FileWriter) Size() uint64 {
